@@ -169,12 +169,74 @@ Theorem prop_ok_u_judges_exact_tail (c : R.ucase) o1 o2 U P ae :
   R.u_out c = R.ONum o1 o2 U P ae -> R.exact_regime t n1 n2 = true -> R.prop_ok_u c = true ->
   R.close P (tail_num (R.u_alt c) t n1 u) (total t n1) (snd (R.spec_p t n1 u (R.u_alt c))) = true.
 Proof.
-  intros x1 x2 t n1 n2 u Hout Hreg Hok. unfold R.prop_ok_u in Hok. rewrite Hout in Hok.
-  fold x1 x2 in Hok. fold n1 n2 in Hok. fold t u in Hok. rewrite Hreg in Hok.
+  intros x1 x2 t n1 n2 u Hout Hreg Hok. unfold R.prop_ok_u, R.judge_u in Hok.
+  apply andb_prop in Hok. destruct Hok as [Hok _]. rewrite Hout in Hok.
   apply andb_prop in Hok. destruct Hok as [_ Hok].
+  unfold R.p_ok in Hok. apply andb_prop in Hok. destruct Hok as [_ Hok].
+  fold x1 x2 in Hok. fold n1 n2 in Hok. fold t u in Hok. rewrite Hreg in Hok.
+  unfold R.exact_p_ok in Hok.
   pose proof (judged_p_is_exact_tail x1 x2 (R.u_alt c)) as Hj. cbv zeta in Hj. fold x1 x2 t n1 u in Hj.
-  destruct (R.spec_p t n1 u (R.u_alt c)) as [[num den] slack]. cbn [fst snd] in *.
-  inversion Hj; subst. exact Hok.
+  destruct (R.spec_p t n1 u (R.u_alt c)) as [[num den] slack]. cbn [fst snd andb] in *.
+  rewrite orb_false_r in Hok. inversion Hj; subst. exact Hok.
+Qed.
+
+(** ** the relaxed judge of the known finding C11_twosided_asymmetric_ties *)
+Lemma exact_p_ok_relax_weaker t n1 n2 u a P :
+  R.exact_p_ok false t n1 n2 u a P = true -> R.exact_p_ok true t n1 n2 u a P = true.
+Proof.
+  unfold R.exact_p_ok. destruct (R.spec_p t n1 u a) as [[num den] slack]. cbn [andb].
+  rewrite orb_false_r. intros ->. reflexivity.
+Qed.
+
+(** outside the finding's input class (one-sided alternative, or no ties, or a
+    palindromic tie vector) the relaxed judge IS the strict one *)
+Lemma exact_p_ok_relax_same t n1 n2 u a P :
+  a <> Differs \/ has_ties t = false \/ R.palindrome t = true ->
+  R.exact_p_ok true t n1 n2 u a P = R.exact_p_ok false t n1 n2 u a P.
+Proof.
+  intros H. unfold R.exact_p_ok. destruct (R.spec_p t n1 u a) as [[num den] slack]. cbn [andb].
+  rewrite orb_false_r. destruct a; try (now rewrite orb_false_r).
+  destruct H as [H|[H|H]]; [congruence | rewrite H | rewrite H, andb_false_r]; cbn [andb negb]; now rewrite orb_false_r.
+Qed.
+
+Lemma p_ok_relax_weaker orc x1 x2 a P : R.p_ok false orc x1 x2 a P = true -> R.p_ok true orc x1 x2 a P = true.
+Proof.
+  unfold R.p_ok. intros H. apply andb_prop in H. destruct H as [H1 H2]. rewrite H1. cbn [andb].
+  destruct (R.exact_regime _ _ _); [now apply exact_p_ok_relax_weaker | exact H2].
+Qed.
+
+(** whatever the strict judge accepts the relaxed judge accepts *)
+Theorem known_ok_u_weaker c : R.prop_ok_u c = true -> R.known_ok_u c = true.
+Proof.
+  unfold R.prop_ok_u, R.known_ok_u, R.judge_u. intros H. apply andb_prop in H. destruct H as [HO HL].
+  apply andb_true_intro. split.
+  - destruct (R.u_out c); try exact HO.
+    apply andb_prop in HO. destruct HO as [HO1 HO2]. rewrite HO1. now apply p_ok_relax_weaker.
+  - unfold R.legacy_ok in *. destruct (R.u_legacy c); try exact HL.
+    apply andb_prop in HL. destruct HL as [HL1 HL2]. rewrite HL1. cbn [andb].
+    apply orb_prop in HL2. destruct HL2 as [HL2|HL2]; [rewrite HL2; reflexivity|].
+    rewrite (p_ok_relax_weaker _ _ _ _ _ HL2). apply orb_true_r.
+Qed.
+
+(** the relaxed judge differs from the strict one ONLY on the finding's input class:
+    for a one-sided alternative without a legacy outcome, for samples without ties,
+    for a palindromic tie vector and in the approximate regime they are equal *)
+Theorem known_ok_u_same c :
+  let t := pool_T (R.u_x1 c) (R.u_x2 c) in
+  (R.u_alt c <> Differs /\ R.u_legacy c = R.LNone) \/ has_ties t = false \/ R.palindrome t = true
+  \/ R.exact_regime t (zlen (R.u_x1 c)) (zlen (R.u_x2 c)) = false ->
+  R.known_ok_u c = R.prop_ok_u c.
+Proof.
+  intros t H. unfold R.prop_ok_u, R.known_ok_u, R.judge_u.
+  assert (HP : forall a P, (a = R.u_alt c \/ R.u_legacy c <> R.LNone) ->
+            R.p_ok true (R.u_oracle c) (R.u_x1 c) (R.u_x2 c) a P = R.p_ok false (R.u_oracle c) (R.u_x1 c) (R.u_x2 c) a P).
+  { intros a P Ha. unfold R.p_ok. f_equal. fold t.
+    destruct (R.exact_regime t _ _) eqn:E; [|reflexivity].
+    apply exact_p_ok_relax_same. destruct H as [[H1 H2]|[H|[H|H]]]; try (right; tauto); [|congruence].
+    left. destruct Ha as [->|Ha]; [exact H1 | congruence]. }
+  f_equal.
+  - destruct (R.u_out c); try reflexivity. f_equal. apply HP. now left.
+  - unfold R.legacy_ok. destruct (R.u_legacy c) eqn:EL; try reflexivity. f_equal. f_equal. apply HP. right. discriminate.
 Qed.
 
 Theorem judged_counts_correct t n1 u : nonneg t -> (0 <= n1 \/ t <> []) ->
